@@ -547,6 +547,11 @@ where
             framed = convert(framed, k);
         }
         let r: Poll<Result<(), <C as Encoder<I>>::Error>> = match tok.as_bytes()[0] {
+            b'x' => {
+                // an explicit conversion (model: OConv): carries everything over, touches nothing
+                framed = convert(framed, k);
+                Poll::Ready(Ok(()))
+            }
             b'r' => Sink::<I>::poll_ready(Pin::new(&mut framed), &mut cx),
             b'f' => Sink::<I>::poll_flush(Pin::new(&mut framed), &mut cx),
             b'c' => Sink::<I>::poll_close(Pin::new(&mut framed), &mut cx),
